@@ -1,0 +1,30 @@
+//go:build verif && !verif_skip_ari
+
+package certmagic
+
+import (
+	"context"
+
+	"github.com/mholt/acmez/v3/acme"
+)
+
+// Verification hooks (build tag "verif" only) for the renewal-information refresh (C04):
+// a wrapper of Config.updateARI and read-only accessors of the unexported renewal info a
+// Certificate value / a cache entry carries. No existing code is changed.
+
+// VerifARIUpdate exposes Config.updateARI (with the Config's own logger).
+func VerifARIUpdate(ctx context.Context, cfg *Config, cert Certificate) (Certificate, bool, error) {
+	return cfg.updateARI(ctx, cert, cfg.Logger)
+}
+
+// VerifARIOf returns the renewal info the Certificate value carries.
+func VerifARIOf(cert Certificate) acme.RenewalInfo { return cert.ari }
+
+// VerifARICacheEntry returns the cache entry with the given hash (a copy, read under the
+// cache's read lock) and whether it exists.
+func VerifARICacheEntry(c *Cache, hash string) (Certificate, bool) {
+	c.mu.RLock()
+	defer c.mu.RUnlock()
+	cert, ok := c.cache[hash]
+	return cert, ok
+}
